@@ -10,6 +10,14 @@ CHECKS = {
    technique="explicit-state BFS over API operation histories executed on the real smf.SMF in lock-step with a reference model (state hashing), write+read-back invariant in every state; exhaustive scalar sweeps",
    text="Every history of New/NewSMF1/NewSMF2, Track.Add (single, multi), Track.Close (early/late/omitted), SMF.Add (fresh or re-used track variable) within the stated bounds (up to 3-6 events, 2-3 tracks, 4-14 message classes, 12 configurations) is executed on the real library; in each reached file value WriteTo then ReadFrom must reproduce format, division, track count and every (delta, bytes) pair. All 32767 metric resolutions, all 4x256 SMPTE divisions, all delta boundaries of the uint32 range and payload lengths across every VLQ width are swept completely.",
    note="Trusted: the harness's reference model of the construction API and the Go toolchain. Bounded: histories beyond the stated depth and message values outside the 14-class alphabet are not explored (one representative per class the code distinguishes)."),
+ "C03": dict(level="model_checking", engine="bfs", design="4/C03",
+   technique="explicit-state BFS over API histories (shared with C01); strict reference parser as invariant in every state; complete enumeration of all 2^28 VLQ values",
+   text="In every file value reached by the bounded API-history search the bytes handed to the io.Writer must be accepted by an independent strict SMF 1.0 parser (header/ntrks, exact chunk lengths, single trailing end-of-track, canonical VLQs, legal running status, no trailing bytes) that recovers exactly the reference content; reported size equals bytes emitted; a second write is byte-identical. The VLQ encoder/decoder/reader are checked on all 2^28 legal values and on boundary and single-digit values of the rest of the 32-bit range.",
+   note="Trusted: the strict parser in /verif/harness/refsmf (written from the specification, cross-checked against the tolerant decoder and the generator in C02). Bounded as C01."),
+ "C16": dict(level="model_checking", engine="bfs", design="4/C16",
+   technique="explicit-state BFS over single-track API histories, every reached value converted and compared with a split-by-channel oracle; enumeration of dense many-events-per-tick files",
+   text="Every single-track file reachable with up to 3-8 events over 10 message classes (channels 0, 1, 15, meta, sysex, escape), deltas {0,1,100}, closed early/late/not at all, metric and SMPTE division, is converted with ConvertToSMF1; the result must keep the division, hold all non-channel messages on the first track and one track per used channel in ascending order, every message at its original absolute tick and in original relative order, nothing lost or duplicated, every track terminated exactly once, and must serialise to a strictly valid file. Dense files (1..120 events, 6 kind patterns x 5 tick patterns) force the sort to work.",
+   note="Trusted: oracle in harness/c16. Bounded: message values outside the alphabet; more than 120 events on a tick."),
 }
 
 NOT_YET = "check not built yet in this session (see DESIGN.md section 4 for the planned exploration)"
